@@ -85,6 +85,14 @@ def yaml_text(rng):
         return "{" + ", ".join(parts) + "}\n"
     if r < 0.92:
         return g.node(2) + "\n"
+    if r < 0.94:
+        # an anchor NAME defined again later (legal: an alias names the latest definition before it); the later
+        # definition reaches the earlier one through another anchor, and nothing is cyclic
+        return rng.choice(["base: &x {k: 1}\nmid: &y {inner: *x}\ntop: &x {deep: *y}\nuse: *x\n",
+                           "a: &x [1]\nb: &y [*x]\nc: &x [*y, 2]\nd: *x\n",
+                           "l: [&e 1, &e 2, *e]\n",
+                           "a: &m {p: 1}\nb: &n {<<: *m, q: 2}\nc: &m {<<: *n, r: 3}\nd: *m\n",
+                           "- &s [x]\n- &t {in: *s}\n- &s {of: *t}\n- *s\n"])
     if r < 0.96:
         # anchors that contain an alias to themselves (yaml.v3 builds a cyclic node graph)
         return rng.choice(["a: &x [*x]\n", "&m {k: *m}\n", "a: &m {<<: *m, b: 1}\n", "a: &x [[1, *x]]\nb: *x\n", "a: &x {b: {c: [*x]}}\n"])
